@@ -865,6 +865,66 @@ fn oracle_psd_complete(r: &Req, out: &str) -> Result<(), String> {
     Ok(())
 }
 
+// ------------------------------------------------------------------ channel: psd_complete.written
+//
+// Which entries does `psd_complete` write?  The request carries a matrix whose entries inside
+// the clique pattern are random data and whose entries outside are one recognisable value; the
+// response is the sorted list of the (column-major, linear) positions of the output whose bit
+// pattern differs from the input.  The Lean side (`Chordal.psdCompleteChanged`) computes the same
+// list from the indices alone.
+
+fn run_psd_written(r: &Req) -> String {
+    let info = parse_info(r);
+    let d = r.u("d");
+    let w0 = r.fs("W");
+    let out = info.psd_complete(0, w0.clone(), d);
+    let chg: Vec<usize> = (0..out.len().min(w0.len())).filter(|&k| out[k].to_bits() != w0[k].to_bits()).collect();
+    format!("chg={}", fus(&chg))
+}
+
+/// on requests marked `valid=1` (pattern straight from the analysis): the changed positions are
+/// exactly the positions outside every clique block, bit for bit, and the set is symmetric
+fn oracle_psd_written(r: &Req, out: &str) -> Result<(), String> {
+    if !r.has("valid") || !r.b("valid") {
+        return Ok(());
+    }
+    let o = Req::parse(&format!("x {}", out)).ok_or("unparsable")?;
+    if !o.has("chg") {
+        return Err(format!("psd_complete failed on a pattern produced by the analysis: {}", out));
+    }
+    let d = r.u("d");
+    let chg: BTreeSet<usize> = o.us("chg").into_iter().collect();
+    let pats = parse_patterns(r);
+    let cones = parse_cones(r, "");
+    let mut inpat = vec![false; d * d];
+    if let Block::Cliques(_, cl, _, _) = &blocks_of(&cones, &pats)[0] {
+        for c in cl {
+            for &i in c {
+                for &j in c {
+                    inpat[j * d + i] = true;
+                }
+            }
+        }
+    } else {
+        return Err("generator: not decomposed".into());
+    }
+    for j in 0..d {
+        for i in 0..d {
+            let k = j * d + i;
+            if inpat[k] && chg.contains(&k) {
+                return Err(format!("completion changed the bits of the clique entry ({},{})", i, j));
+            }
+            if !inpat[k] && !chg.contains(&k) {
+                return Err(format!("completion left the entry ({},{}) outside the clique pattern at its input value", i, j));
+            }
+            if chg.contains(&k) != chg.contains(&(i * d + j)) {
+                return Err(format!("the set of completed entries is not symmetric at ({},{})", i, j));
+            }
+        }
+    }
+    Ok(())
+}
+
 // ------------------------------------------------------------------ channel: e2e (oracle only, isolated)
 
 const VARIANTS: [(bool, &str, bool); 12] = [
@@ -977,9 +1037,16 @@ fn oracle_e2e(r: &Req, out: &str) -> Result<(), String> {
         if st == 99 {
             return Err(format!("[{}] construction / solve panicked", name));
         }
-        if st != base_st {
+        // verdict class: the decomposed problem has more variables and degenerate overlap
+        // constraints; on the unchanged tree ~1 in 10^3 planted instances with 15 cliques ends
+        // AlmostSolved (solved, reduced accuracy) where the undecomposed run is Solved.  That is
+        // the same verdict class; the point must then meet every condition below at the reduced
+        // accuracy (100·tol), the explicit relaxation the property allows.
+        let almost = st == 4 && base_st == 1;
+        if st != base_st && !almost {
             return Err(format!("[{}] status {} but {} with decomposition off", name, st, base_st));
         }
+        let tol = if almost { 100.0 * tol } else { tol };
         let (x, s, z) = (o.fs(&format!("v{v}_x")), o.fs(&format!("v{v}_s")), o.fs(&format!("v{v}_z")));
         if x.len() != n || s.len() != m || z.len() != m {
             return Err(format!("[{}] solution lengths ({},{},{}) are not (n,m,m) = ({},{},{})", name, x.len(), s.len(), z.len(), n, m, m));
@@ -1064,6 +1131,8 @@ fn channels() -> Vec<Channel> {
             rust_fn: "ChordalInfo::decomp_reverse_compact", lean: "Chordal.decompReverseCompact" },
         Channel { name: "psd_complete", tol: Tol::Exact, run: run_psd_complete, oracle: Some(oracle_psd_complete), modelled: false,
             rust_fn: "psd_completion::psd_complete", lean: "(oracle only: agrees with clique blocks + PSD; Grone et al. assumed)" },
+        Channel { name: "psd_complete.written", tol: Tol::Exact, run: run_psd_written, oracle: Some(oracle_psd_written), modelled: true,
+            rust_fn: "psd_completion::psd_complete (positions written)", lean: "Chordal.psdCompleteChanged / Chordal.psdCompleteWritten / C18.completion_agrees" },
         Channel { name: "e2e", tol: Tol::Exact, run: run_e2e, oracle: Some(oracle_e2e), modelled: false,
             rust_fn: "DefaultSolver::new + solve, decomposition on vs off", lean: "(oracle only)" },
         Channel { name: "batch", tol: Tol::Exact, run: run_batch, oracle: None, modelled: false, rust_fn: "(isolation wrapper)", lean: "" },
@@ -1353,11 +1422,13 @@ fn generate(s: &mut Session) {
         pdata.push((d, line));
     }
     prefetch(&plines, 40);
+    let mut written_in: Vec<(usize, String)> = vec![]; // inputs of psd_complete.written (generated at the end)
     for (d, line) in pdata {
         let pats = s.submit(line);
         if !pats.starts_with("np=1") {
             continue;
         }
+        written_in.push((d, pats.clone()));
         // a positive definite matrix (random factor), possibly nearly singular
         let rank = if s.rng.bool(0.2) { 1 + s.rng.below(d) } else { d + 2 };
         let f: Vec<Vec<f64>> = (0..d).map(|_| (0..rank).map(|_| s.rng.normal()).collect()).collect();
@@ -1390,6 +1461,90 @@ fn generate(s: &mut Session) {
                 s.count(&format!("e2e:variants-with-active-decomposition:{}", if active == 0 { "0" } else if active < 12 { "some" } else { "12" }));
                 s.count(&format!("e2e:baseline-status:{}", o.u("v0_st")));
             }
+        }
+    }
+
+    // ---- psd_complete.written (last, so that the cases above do not depend on it)
+    generate_psd_written(s, written_in);
+}
+
+/// inputs of `psd_complete.written`: the patterns of the `psd_complete` cases (all three merge
+/// strategies) with a matrix that is random inside the clique pattern (positive definite, or
+/// of low rank so that the Cholesky factorisation of a block fails and the pinv path runs) and
+/// one recognisable value outside; plus a few damaged patterns for the panic sites.
+fn generate_psd_written(s: &mut Session, inputs: Vec<(usize, String)>) {
+    for (d, pats) in inputs {
+        let cones = [SupportedConeT::PSDTriangleConeT(d)];
+        let head = format!("psd_complete.written n=1 m={} {}", d * (d + 1) / 2, fmt_cones("", &cones));
+        let pr = match Req::parse(&format!("x {}", pats)) {
+            Some(p) => p,
+            None => continue,
+        };
+        let pp = parse_patterns(&pr);
+        let mut inpat = vec![false; d * d];
+        if let Block::Cliques(_, cl, _, _) = &blocks_of(&cones, &pp)[0] {
+            for c in cl {
+                for &i in c {
+                    for &j in c {
+                        inpat[j * d + i] = true;
+                    }
+                }
+            }
+        } else {
+            continue;
+        }
+        let singular = s.rng.bool(0.25);
+        let rank = if singular { 1 + s.rng.below(2) } else { d + 2 };
+        let f: Vec<Vec<f64>> = (0..d).map(|_| (0..rank).map(|_| s.rng.normal()).collect()).collect();
+        let eps = if singular { 0.0 } else { 0.1 };
+        // never the value of a computed entry: an exact zero can be computed (empty separator)
+        let sentinel = 1000.0 + 1000.0 * s.rng.unit();
+        let mut w = vec![0.0; d * d];
+        for i in 0..d {
+            for j in 0..d {
+                w[j * d + i] = if inpat[j * d + i] {
+                    (0..rank).map(|k| f[i][k] * f[j][k]).sum::<f64>() + if i == j { eps } else { 0.0 }
+                } else {
+                    sentinel
+                };
+            }
+        }
+        s.count(if singular { "psd_complete.written:low-rank" } else { "psd_complete.written:definite" });
+        if inpat.iter().all(|&b| b) {
+            s.count("psd_complete.written:nothing-to-complete");
+        }
+        s.submit(format!("{} {} d={} W={} valid=1", head, pats, d, ffs(&w)));
+
+        // damaged patterns: the panic sites of psd_complete
+        if s.rng.bool(0.15) {
+            let (t, ord, oi) = pp[0].clone();
+            let mut t = t;
+            let mut ord = ord;
+            let kind = s.rng.below(5);
+            match kind {
+                0 => t.n_cliques = 0,
+                1 => {
+                    let c = s.rng.below(t.snode.len());
+                    t.snode[c].clear();
+                }
+                2 => {
+                    let c = s.rng.below(t.snode.len());
+                    if !t.snode[c].is_empty() {
+                        let k = s.rng.below(t.snode[c].len());
+                        t.snode[c][k] = d + s.rng.below(3);
+                    }
+                }
+                3 => {
+                    let k = s.rng.below(t.snode_post.len());
+                    t.snode_post[k] = t.snode.len() + s.rng.below(2);
+                }
+                _ => {
+                    let k = s.rng.below(ord.len());
+                    ord[k] = d + s.rng.below(2);
+                }
+            }
+            s.count(&format!("psd_complete.written:damaged:{}", kind));
+            s.submit(format!("{} {} d={} W={} valid=0", head, fmt_patterns(&[(t, ord, oi)]), d, ffs(&w)));
         }
     }
 }
